@@ -614,7 +614,7 @@ func (env *Env) evalIndex(n EIndex) Val {
 		idx = env.coerceTo(idx, tInt)
 		name, sort := e.arrMapName(t.Elem())
 		h := e.heapGet(env.st, name, sort)
-		return term(fmt.Sprintf("(select (select %s (sl_ref %s)) %s)", h, base.T, e.arith("+", fmt.Sprintf("(sl_off %s)", base.T), idx.T, tInt)), t.Elem())
+		return term(fmt.Sprintf("(select (select %s (sl_ref %s)) %s)", h, base.T, e.slIdx(base.T, idx.T)), t.Elem())
 	case *types.Array:
 		idx = env.coerceTo(idx, tInt)
 		return term(fmt.Sprintf("(select %s %s)", base.T, idx.T), t.Elem())
@@ -734,7 +734,7 @@ func (env *Env) evalCall(n ECall) Val {
 		iv := fmt.Sprintf("i!s%d", e.S.fresh)
 		is := e.S.IntSort()
 		env.st.assume(fmt.Sprintf("(forall ((%s %s)) (! (= (select %s %s) (select (select %s (sl_ref %s)) %s)) :pattern ((select %s %s))))",
-			iv, is, a, iv, h, v.T, e.arith("+", fmt.Sprintf("(sl_off %s)", v.T), iv, tInt), a, iv))
+			iv, is, a, iv, h, v.T, e.slIdx(v.T, iv), a, iv))
 		return term(a, gt)
 	case "callresult0", "callresult1", "callresult2":
 		limitf("callresultN is an identifier, not a function")
@@ -748,6 +748,20 @@ func (env *Env) evalCall(n ECall) Val {
 			return term("true", tBool)
 		}
 		return term(fmt.Sprintf("(forall ((r!k Int)) (! (=> (and (<= 0 r!k) (<= r!k %s)) (= (select %s r!k) (select %s r!k))) :pattern ((select %s r!k))))", env.old.alloc, cur, old, cur), tBool)
+	case "keptArraysExcept":
+		// keptArraysExcept("T", s): every backing array of element type T that existed in the old state,
+		// other than the one slice s had in the old state, has its old contents
+		t := e.P.resolveType(typeArgText(n.Args[0]), env.pkg, env.fnForTypes())
+		name, sort := e.arrMapName(t)
+		cur := e.heapGet(env.st, name, sort)
+		old := e.heapGet(env.old, name, sort)
+		if cur == old {
+			return term("true", tBool)
+		}
+		oenv := *env
+		oenv.st = env.old
+		sv := oenv.eval(n.Args[1])
+		return term(fmt.Sprintf("(forall ((r!k Int)) (! (=> (and (<= 0 r!k) (<= r!k %s) (not (= r!k (sl_ref %s)))) (= (select %s r!k) (select %s r!k))) :pattern ((select %s r!k))))", env.old.alloc, sv.T, cur, old, cur), tBool)
 	case "card":
 		// card(s): number of elements of a ghost set (only the facts >= 0, element => positive, zero => empty are known)
 		v := env.eval(n.Args[0])
